@@ -42,6 +42,7 @@ PLAN = {
     "C14": [item("h_chain", "c14_chain", 2_400_000, 64_000_000, max_len=(1024, 8192))],
     "C15": [item("h_symbol", "c15_huffman", 800_000, 24_000_000, max_len=(2048, 16384))],
     "C16": [item("h_symbol", "c16_bits", 2_400_000, 64_000_000, param=16, max_len=(1024, 8192))],
+    "C17": [item("h_symbol", "c17_backends", 2_400_000, 64_000_000, max_len=(1024, 8192))],
 }
 
 CHAIN_GRID = ("chain-coder grid (Word/State: precisions, switchable by change_precision): u8/u16: 8,3,1; u8/u32: 8,5,1; u8/u64: 8,4; "
@@ -111,6 +112,13 @@ RULES = {
            "symbol marks, independent Exp-Golomb codeword construction, exports compared with the little-endian packing of the bits "
            "(+terminating 1 for the stack, zero padding for the queue); non-trivial = >= 2 words of bits, or a re-import with a set data "
            "bit below the terminator",
+    "C17": "case = (backend kind: Cursor over Vec | Box<[_]> | &[_] | &mut [_], Reverse<Cursor> over Vec | Box<[_]> | &mut [_] built from "
+           "reversed data, growing stacks Vec | SmallVec<[_;2]>, iterator adapter over a non-fused iterator with injected errors, callback "
+           "writers; buffer of 0..8 words, start position anywhere; script of <=60 / <=400 ops over {read<Stack>, read<Queue>, write, "
+           "extend_from_iter, seek (valid / to pos() / out of range), pos + buf, remaining / is_exhausted / maybe_exhausted / space_left / "
+           "is_full / maybe_full compared with the model AND with the number of reads / writes that actually succeed on a clone, "
+           "into_reversed (any number of times), reads through as_view() / cloned(), reads after end of data}); the reference is one "
+           "logical cursor (buf, pos) whose physical pos/buf are mirrored by each reversal; non-trivial = script of >= 5 ops",
 }
 
 LEVEL_TEXT = {
@@ -126,6 +134,7 @@ LEVEL_TEXT = {
     "C14": "differential (independent chunk model) and metamorphic (model replacement, bit flips) property-based search",
     "C15": "property-based search over weight vectors with a reference construction, exhaustive-optimum oracle for small alphabets and validity predicates",
     "C16": "stateful model-based property-based search over bit-coder scripts against a Vec<bool> model and the documented word packing",
+    "C17": "stateful model-based property-based search over backend op scripts against a logical-cursor reference model",
 }
 
 TECHNIQUE = {
@@ -141,4 +150,5 @@ TECHNIQUE = {
     "C14": "differential + metamorphic property-based testing against an independent chunk model",
     "C15": "property-based testing with reference model (textbook Huffman + exhaustive optimum) and validity predicates",
     "C16": "stateful model-based property-based testing (op scripts vs Vec<bool> reference)",
+    "C17": "stateful model-based property-based testing (op scripts vs logical-cursor model)",
 }
